@@ -33,12 +33,23 @@ type apiGen struct {
 func (a *apiGen) rn(n int) int { return a.g.Rng.Intn(n) }
 func (a *apiGen) pick(xs ...string) string { return xs[a.rn(len(xs))] }
 
+// methods outside the anchored files (block_service.go): driven, not modelled
+var apiUnmodelled = map[string]bool{"GetBestBlock": true, "GetBlockByHeight": true, "GetBlockStakingReward": true}
+
 func (a *apiGen) call(class, m string, args ...string) {
 	a.g.Op("call-"+m, "call %s%s", m, joinArgs(args))
 	a.g.Stats["req-"+class]++
-	if a.precise {
-		a.g.Op("res", "res")
+	if !a.precise || apiUnmodelled[m] {
+		return
 	}
+	for _, x := range args {
+		// the content of the last created / signed transaction and of a cut serialization is not
+		// known to the model
+		if x == "rawc" || x == "raws" || strings.HasPrefix(x, "cut:") && strings.Contains(x, ":raw:") {
+			return
+		}
+	}
+	a.g.Op("res", "res")
 }
 
 func joinArgs(args []string) string {
@@ -209,16 +220,29 @@ func (a *apiGen) amounts() string {
 	}
 	var items []string
 	seen := map[string]bool{}
+	invalid := 0 // Go map iteration order is random: at most one entry may fail validation
 	for i := 0; i < n; i++ {
 		ad, c1 := a.addr()
+		am, c2 := a.amount()
+		bad := c1 == "empty" || c1 == "overlong" || (c2 != "valid" && c2 != "zero")
+		if bad && invalid > 0 {
+			ad, c1 = fmt.Sprintf("xaddr:X%d", 1+i), "stranger"
+			am, c2 = "a:0.25", "valid"
+			bad = false
+		}
 		if seen[ad] {
 			continue
 		}
+		if bad {
+			invalid++
+		}
 		seen[ad] = true
-		am, c2 := a.amount()
 		a.g.Stats["amt-"+c2]++
 		a.g.Stats["addr-"+c1]++
 		items = append(items, ad+">"+am)
+	}
+	if len(items) == 0 {
+		return "-"
 	}
 	return strings.Join(items, ",")
 }
